@@ -486,6 +486,22 @@ def h10(ctx):
         ctx.check(ok, "completion-is-fresh:" + C.fkey(root), "%s completes a slot map with Slot::fresh()" % C.short(root.id),
                   "%s completes a slot map for an uncovered slot with %s instead of Slot::fresh(): the invented name can coincide with a name that is already in use (a slot of the class, a slot the rule's right-hand side introduces, a user name) — capture / a spurious redundancy, and the result depends on how names are spelled" % (C.short(root.id), role_str(sv)[:60]),
                   where_of(b, c.bb))
+        # .. and a NEW one for every slot completed: the fresh() call runs once per insert — inside the loop (or the per-element
+        # closure) the insert is in.  One fresh slot drawn in front of the loop and shared makes two uncovered slots coincide: the
+        # completed map is no longer injective (hoisted `let placeholder = Slot::fresh();`).
+        if ok:
+            shared = None
+            cs_ = b.call_at.get(sv[4]) if len(sv) > 4 else None
+            own = cs_ is not None and cs_.callee is not None and cs_.callee.name == "fresh"
+            for l in C.iterator_loops(b):
+                lb = C.loop_body(b, l)
+                if c.bb in lb and own and sv[4] not in lb:
+                    shared = "the Slot::fresh() call lies outside the loop the insert is in"
+            if b.kind == "Closure" and not any(x.callee and x.callee.name == "fresh" for x in b.calls):
+                shared = "the slot is drawn outside the per-element closure that inserts it"
+            ctx.check(shared is None, "fresh-per-completed-slot:" + C.fkey(root), "%s draws a new Slot::fresh() for every slot it completes" % C.short(root.id),
+                      "%s completes several uncovered slots with ONE fresh slot (%s): two different slots are sent to the same name, the completed map is not injective — an e-node whose two redundant slots were identified re-canonicalises to a different shape, an invocation with a repeated argument is not a bijection" % (C.short(root.id), shared),
+                      where_of(b, c.bb))
     ctx.floor("slot-map completion sites", len(sites), 1)
 
 
